@@ -38,6 +38,14 @@ func valTokens(v data.Value) string { return strings.Join(rawEnc(v), ",") }
 
 func mapTokens(m map[string]interface{}) string { return valTokens(data.New(m)) }
 
+// ijTokens encodes injected data.  Lists and maps carry identities on the wire (equality of collections is identity);
+// the data and the injected data of one request are encoded separately, so the injected data numbers its collections
+// from a base of its own — otherwise a map of the data and a map of $ij could get the same identity and the model
+// would call them equal.
+func ijTokens(m map[string]interface{}) string {
+	return strings.Join(canonValue(data.New(m), &renum{map[uintptr]int{}, map[uintptr]int{}, 1000002}, nil), ",")
+}
+
 func decMapField(f string) data.Map {
 	if f == "-" {
 		return data.Map{}
@@ -445,7 +453,7 @@ var builtinNames = []string{"isNonnull", "length", "keys", "augmentMap", "round"
 
 func genC01eval(g *G) {
 	dataTok := mapTokens(stdData())
-	ijTok := mapTokens(stdIj())
+	ijTok := ijTokens(stdIj())
 	add := func(body, class string, nt bool) {
 		opts := ""
 		if strings.Contains(body, "keys(") {
@@ -694,12 +702,12 @@ func genBundles(g *G, bg *bundleGen, n int, hostile bool) {
 				ij := "nil"
 				switch g.R.Intn(3) {
 				case 0:
-					ij = mapTokens(stdIj())
+					ij = ijTokens(stdIj())
 				case 1:
 					if hostile {
-						ij = mapTokens(map[string]interface{}{"s": hostileValue(g.R, 2), "x": hostileValue(g.R, 1)})
+						ij = ijTokens(map[string]interface{}{"s": hostileValue(g.R, 2), "x": hostileValue(g.R, 1)})
 					} else {
-						ij = mapTokens(map[string]interface{}{"n": int64(-1), "s": "<ij>&"})
+						ij = ijTokens(map[string]interface{}{"n": int64(-1), "s": "<ij>&"})
 					}
 				}
 				opts := "-"
@@ -899,7 +907,7 @@ func genErrPositions(g *G) {
 	for _, body := range bodies {
 		fs := exprBundle(body)
 		fs[0].content += callee
-		for _, ij := range []string{"nil", mapTokens(stdIj())} {
+		for _, ij := range []string{"nil", ijTokens(stdIj())} {
 			if r, ok := mkExec("exec", execCase{fs: fs, tmpl: "ns.t", data: dataTok, ij: ij}); ok {
 				g.Add(Case{Req: r, NT: true, Class: "errpos", Note: "error position: " + body})
 			} else {
